@@ -6,7 +6,7 @@
    `cur` is the package plz was started in (core.InitialPackagePath); labels, targets and packages carry their
    subrepo. *)
 From Coq Require Import String.
-From PlzV Require Import Base.Harness Model.C36 Proof.C36_spec Proof.C36 Proof.C36_parse.
+From PlzV Require Import Base.Harness Model.C36 Proof.C36_spec Proof.C36 Proof.C36_parse Proof.C36_orig.
 Local Open Scope list_scope.
 
 (* what does not depend on the filters given: label matching, and the reading of exclude build expressions *)
@@ -23,6 +23,41 @@ Definition C36_reading : Prop :=
   /\ (forall cur x e, reads cur x e -> is_expression x /\ parse_exclude cur x = Some e)
   (* the parser model's recursion bound is never reached *)
   /\ (forall cur x, parse_parts (S (length x)) x cur <> PFuel).
+
+(* Which targets the build TREATS as selected (round-2 follow-up).  `ts` is state.progress.originalTargets after
+   AddOriginalTarget of every requested label (a requested label that an exclude expression covers is dropped),
+   `is_original` is BuildState.IsOriginalTarget - it decides whether a built test is run, an output downloaded, a target
+   rebuilt -, `named ts t` = the target itself was requested by name (then the filters do not apply to it),
+   `package_requested ts t` = a :all label of its package is held.  `exact_when` is the side condition of the exact
+   direction: none in the statement, outside the subrepo defect class `confused` in what is proved. *)
+Definition C36_original_targets (exact_when : state -> target -> Prop) : Prop :=
+  (forall cur include exclude st requested ts,
+     set_include_and_exclude cur empty_state include exclude = Some st ->
+     originals st empty_ts requested = Some ts ->
+     (* a target is treated as original exactly when a :all of its package was requested and the documented rule
+        selects it: include groups, exclude groups AND exclude build patterns *)
+     (forall t, ~ named ts t -> exact_when st t ->
+        (is_original st ts t = true <-> package_requested ts t /\ selected cur include exclude t))
+     (* exclusion always takes priority: by label group or by build pattern *)
+     /\ (forall t, ~ named ts t -> excluded cur exclude t -> is_original st ts t = false)
+     (* the two sites agree, for every graph: original <-> listed by ExpandAllOriginalLabels *)
+     /\ (forall g p t, wf_graph g -> In p g -> In t (p_targets p) ->
+           (is_original st ts t = true <-> In (t_label t) (expand_originals st g requested false)))
+     (* `plz test`: for EVERY map of dependency edges dm between the candidates, the tests run are exactly the tests
+        among the selected targets; an excluded target that an included one depends on is built, not run *)
+     /\ (forall g dm p t, wf_graph g -> In p g -> In t (p_targets p) ->
+           (In (t_label t) (tests_run st g dm ts) <->
+            t_test t = true /\ In (t_label t) (expand_originals st g requested true)))
+     /\ (forall g dm p t, wf_graph g -> In p g -> In t (p_targets p) ->
+           excluded cur exclude t -> ~ In (t_label t) requested -> ~ In (t_label t) (tests_run st g dm ts)))
+  (* the TargetSet over every history of Add calls: AllTargets() is the history, MatchExact the named labels, Match
+     additionally the members of the packages whose :all was added *)
+  /\ (forall ls ts, ts_add_all empty_ts ls = Some ts ->
+        ts_everything ts = ls
+        /\ (forall l, ts_match_exact ts l = true <-> In l ls /\ is_all_targets l = false)
+        /\ (forall l, fst (ts_match ts l) = true <->
+              (In l ls /\ is_all_targets l = false)
+              \/ exists L, In L ls /\ is_all_targets L = true /\ l_pkg L = l_pkg l /\ l_sub L = l_sub l)).
 
 Definition C36_statement : Prop :=
   (* for every package plz is started in, every --include and --exclude argument list the code accepts *)
@@ -50,6 +85,8 @@ Definition C36_statement : Prop :=
            t_pkg t = l_pkg L -> t_sub t = l_sub L -> ~ selected cur include exclude t))
   (* exclude build expressions remove exactly the targets they denote - those of their own repository *)
   /\ (forall e that, includes e that = true <-> denotes e that)
+  (* what the build then treats as selected (IsOriginalTarget, the tests run) is that same selection *)
+  /\ C36_original_targets (fun _ _ => True)
   /\ C36_reading.
 
 (* The code does not satisfy the statement: BuildLabel.Includes never compares Subrepo, so the exclude expression
@@ -102,6 +139,8 @@ Definition C36_partial_statement : Prop :=
   (* `--exclude :name` alone, plz started in cur: exactly the host targets //cur:name denotes are rejected *)
   /\ (forall cur name st t, set_include_and_exclude cur empty_state [] [COLON :: name] = Some st -> t_sub t = [] ->
         (state_should_include st t = false <-> denotes {| l_sub := []; l_pkg := cur; l_name := name |} (t_label t)))
+  (* original targets, the tests run: exact outside the defect class, everything else unconditional *)
+  /\ C36_original_targets (fun st t => confused st t = false)
   /\ C36_reading.
 
 Theorem C36_partial : C36_partial_statement.
@@ -118,8 +157,15 @@ Proof.
                 (conj (expand_labels_in st)
                       (fun L t => dropped_all_loses_nothing cur include exclude st L t Hset))))))))))
         (conj includes_spec (conj includes_same_repo (conj relative_exclude_exact
+        (conj (conj (fun cur include exclude st requested ts Hset Ho =>
+                 conj (fun t Hnn Hc => proj1 (proj2 (is_original_selected cur include exclude st requested ts t Hset Ho Hnn)) Hc)
+                (conj (fun t Hnn => proj2 (proj2 (is_original_selected cur include exclude st requested ts t Hset Ho Hnn)))
+                (conj (fun g p t Hwf Hp Ht => is_original_iff_listed st g requested ts p t Hwf Ho Hp Ht)
+                (conj (fun g dm p t Hwf Hp Ht => tests_run_exact st g dm requested ts p t Hwf Ho Hp Ht)
+                      (fun g dm p t Hwf Hp Ht => excluded_test_never_run cur include exclude st g dm requested ts p t Hset Hwf Ho Hp Ht)))))
+              ts_history_readers)
         (conj has_label_spec (conj match_spec (conj parse_exclude_relative (conj parse_exclude_absolute
-        (conj reads_parse try_parse_fuel))))))))).
+        (conj reads_parse try_parse_fuel)))))))))).
 Qed.
 Print Assumptions C36_partial.
 
@@ -234,4 +280,40 @@ Proof.
   - eexists _, _. split; [left; reflexivity|]. split; [split; [reflexivity | right; split; [reflexivity | right; left; reflexivity]]|].
     split; [left; reflexivity|]. split; [reflexivity|]. split; [discriminate|].
     split; [left; reflexivity|]. split; [intros x [] | intros x e []].
+Qed.
+
+(* Non-vacuity 6 (seeded mutation r2-m2): `plz test //pkg:all --exclude //pkg:b_test` where the included a_test depends
+   on the excluded b_test.  b_test is built (a dependency) but it is not an original target and is not run; with a
+   label exclude the same.  The hypotheses of C36_original_targets hold: the graph is well formed, no target is named,
+   b_test is `excluded` by a build pattern, no target is in the defect class. *)
+Example C36_excluded_dependency_is_not_run :
+  let g := mk_graph [ ([], s "pkg", [ (s "a_test", [], true); (s "b_test", [s "flaky_dep"], true); (s "c_test", [], true) ]) ] in
+  let lbl n := mk_label ([], s "pkg", n) in
+  let dm := [ (lbl (s "a_test"), [lbl (s "b_test")]) ] in
+  let b := mk_target [] (s "pkg") (s "b_test", [s "flaky_dep"], true) in
+  wf_graph g
+  /\ exists st ts, set_include_and_exclude [] empty_state [] [s "//pkg:b_test"] = Some st
+       /\ originals st empty_ts [lbl (s "all")] = Some ts
+       /\ ts_packages ts = [(s "pkg", [])] /\ ts_targets ts = []
+       /\ In (lbl (s "b_test")) (built st g dm true ts)
+       /\ is_original st ts b = false
+       /\ target_should_include b (st_include st) (st_exclude st) = true
+       /\ excluded [] [s "//pkg:b_test"] b /\ ~ named ts b /\ confused st b = false
+       /\ tests_run st g dm ts = [lbl (s "a_test"); lbl (s "c_test")]
+       /\ expand_originals st g [lbl (s "all")] true = [lbl (s "a_test"); lbl (s "c_test")].
+Proof.
+  cbv zeta. split.
+  - split; [vm_compute; repeat constructor; cbn; intuition discriminate|].
+    intros p Hp. vm_compute in Hp. destruct Hp as [<-|[]].
+    split; [vm_compute; repeat constructor; cbn; intuition discriminate|].
+    intros t Ht; vm_compute in Ht; intuition (subst; reflexivity).
+  - exists {| st_include := []; st_exclude := []; st_exclude_targets := [mk_label ([], s "pkg", s "b_test")] |},
+           {| ts_targets := []; ts_packages := [(s "pkg", [])]; ts_everything := [mk_label ([], s "pkg", s "all")] |}.
+    split; [vm_compute; reflexivity|]. split; [vm_compute; reflexivity|].
+    repeat split; try (vm_compute; reflexivity).
+    + vm_compute. tauto.
+    + exists (s "//pkg:b_test"). split; [left; reflexivity|]. right.
+      split; [left; exists (s "pkg:b_test"); reflexivity|].
+      eexists. split; [vm_compute; reflexivity|]. split; [reflexivity|]. right. right. split; reflexivity.
+    + intros [H _]. vm_compute in H. destruct H as [H|[]]. discriminate.
 Qed.
